@@ -74,6 +74,63 @@ def sites(prog):
             def f(p, path=path):
                 _get(p, path)["args"].append(lit("si", 7))
             yield ("wrong-argument-count", "one argument more for %s" % fn["name"], f)
+        if e == "call" and node.get("kw"):
+            def f(p, path=path):
+                _get(p, path)["kw"][0]["p"] = "noSuchParameterZq9"
+            yield ("unknown-keyword", "keyword argument of %s renamed" % prog["funs"][node["fi"] - 1]["name"], f)
+            def f(p, path=path):
+                n = _get(p, path)
+                n["kw"].append(copy.deepcopy(n["kw"][0]))
+            yield ("duplicate-keyword", "keyword argument of %s given twice" % prog["funs"][node["fi"] - 1]["name"], f)
+        if e == "masg":
+            if len(node["xs"]) > 2 or node["v"].get("e") == "call":
+                def f(p, path=path):
+                    _get(p, path)["xs"].pop()
+                yield ("wrong-multiple-assignment-arity", "one variable less on the left of %s" % ", ".join(node["xs"]), f)
+            def f(p, path=path):
+                _get(p, path)["v"] = lit("si", 3)
+            yield ("wrong-multiple-assignment-arity", "single value assigned to (%s)" % ", ".join(node["xs"]), f)
+        if e == "tuple" and len(node["args"]) > 2:
+            def f(p, path=path):
+                _get(p, path)["args"].pop()
+            yield ("wrong-tuple-arity", "one component less", f)
+        if e == "collect":
+            et = node["t"][1]
+            if isinstance(et, str) and et in WRONG:
+                def f(p, path=path, w=WRONG[et][0]):
+                    _get(p, path)["body"] = copy.deepcopy(w)
+                yield ("wrong-collect-element-type", "element of a collect form", f)
+            if node["cond"].get("e") != "none":
+                def f(p, path=path):
+                    _get(p, path)["cond"] = lit("si", 1)
+                yield ("non-boolean-condition", "filter of a collect form", f)
+        if e in ("for", "forin") and node.get("filt") and node["filt"].get("e") != "none":
+            def f(p, path=path):
+                _get(p, path)["filt"] = lit("si", 1)
+            yield ("non-boolean-condition", "filter of a loop", f)
+        if e == "assert":
+            def f(p, path=path):
+                _get(p, path)["c"] = lit("si", 1)
+            yield ("non-boolean-condition", "condition of an assertion", f)
+        if e == "acall":
+            ops = prog["adts"][node["adt"]]["ops"]
+            o = [q for q in ops if q["name"] == node["op"]][0]
+            for i, t in enumerate(o["pts"]):
+                if isinstance(t, str) and t in WRONG:
+                    def f(p, path=path, i=i, w=WRONG[t][0]):
+                        _get(p, path)["args"][i] = copy.deepcopy(w)
+                    yield ("wrong-argument-type", "argument %d of %s$AD%d" % (i + 1, node["op"], node["adt"]), f)
+            def f(p, path=path):
+                _get(p, path)["op"] = "noSuchExportZq9"
+            yield ("missing-export", "operation %s$AD%d replaced by a name the domain does not export" % (node["op"], node["adt"]), f)
+        if e in ("per", "rep"):
+            def f(p, path=path, other={"per": "rep", "rep": "per"}[e]):
+                _get(p, path)["e"] = other
+            yield ("per-rep-confusion", "%s written for %s" % ({"per": "rep", "rep": "per"}[e], e), f)
+        if e == "throw" and node.get("args"):
+            def f(p, path=path):
+                _get(p, path)["args"] = []
+            yield ("wrong-exception-value", "value of %s left out" % node["exn"], f)
         if e == "var":
             def f(p, path=path):
                 _get(p, path)["x"] = "undefinedZq9"
